@@ -89,6 +89,17 @@ pub fn run(tier: &str) -> i32 {
     let mut samples = Samples::new(8);
     let mut universe: Vec<Ty> = universe::u2(thorough);
     universe.extend(universe::spines());
+    // every type of the depth-1 universe (tuples, structs, functions, cells and arrays over
+    // every base type, `!` and `any` among them) under every one-argument constructor
+    for x in universe::u1() {
+        universe.push(Ty::arr(x.clone()));
+        universe.push(Ty::mutc(x.clone()));
+        universe.push(Ty::func(vec![], x.clone()));
+        universe.push(Ty::func(vec![x.clone()], Ty::Int));
+        universe.push(Ty::Tup(vec![x.clone(), Ty::Int]));
+        universe.push(Ty::strukt(&[("a", x.clone())]));
+        universe.push(Ty::union([Ty::arr(x.clone()), Ty::Int]));
+    }
     let set: BTreeSet<Ty> = universe.into_iter().collect();
     let universe: Vec<Ty> = set.into_iter().collect();
     let n = universe.len();
